@@ -94,6 +94,19 @@ func (w *World) DLQs() []*Dest {
 	return out
 }
 
+// Emitted reports whether any source has handed over a record yet (in any run).
+func (w *World) Emitted() bool {
+	for _, s := range w.Sources() {
+		s.mu.Lock()
+		n := s.batchNo
+		s.mu.Unlock()
+		if n > 0 {
+			return true
+		}
+	}
+	return false
+}
+
 func (w *World) Sources() []*Source {
 	w.mu.Lock()
 	defer w.mu.Unlock()
